@@ -111,3 +111,6 @@ GENERATORS = {
     "Cfml": gen_cfml,
     "WaasKirf": gen_waaskirf,
 }
+
+# properties whose checks need these generated files (a failure here only breaks those)
+SERVES = ['C20', 'C12', 'C05']
